@@ -318,14 +318,29 @@ func TestC11Stream(t *testing.T) {
 		if len(got) != n {
 			t.Fatalf("%d packets returned, stream holds %d", len(got), n)
 		}
+		// all packets are re-emitted through ONE Muxer that has already written tables and a PES (its internal scratch
+		// buffers are not fresh), interleaved with further WriteData calls
+		var sink cappedBuffer
+		mx := astits.NewMuxer(context.Background(), &sink)
+		_ = mx.AddElementaryStream(astits.PMTElementaryStream{ElementaryPID: 0x1ee0, StreamType: astits.StreamTypeH264Video})
+		mx.SetPCRPID(0x1ee0)
+		pes := func() {
+			_, _ = mx.WriteData(&astits.MuxerData{PID: 0x1ee0, PES: &astits.PESData{Header: &astits.PESHeader{StreamID: 0xe0, OptionalHeader: &astits.PESOptionalHeader{MarkerBits: 2, PTSDTSIndicator: 2, PTS: &astits.ClockReference{Base: 1}}}, Data: []byte{1, 2, 3, 4, 5}}})
+		}
+		pes()
 		for i, m := range ms {
 			enc := stream[i*188 : (i+1)*188]
 			if g, w := obs.Canon(got[i], c11Skip...), obs.Canon(conv.PacketStruct(m, true), c11Skip...); g != w {
 				t.Fatalf("packet %d of %d, compared after the whole stream was read:\n%s\npacket %x", i, n, obs.Diff(g, w), enc)
 			}
-			out, wn, err := writePacketOf(got[i])
+			before := sink.Len()
+			wn, err := mx.WritePacket(got[i])
+			out := sink.Bytes()[before:]
 			if err != nil || wn != 188 || !bytes.Equal(out, enc) {
-				t.Fatalf("re-emitting packet %d after the whole stream was read = %x (n=%d err=%v)\noriginal %x", i, out, wn, err, enc)
+				t.Fatalf("re-emitting packet %d (after the whole stream was read, through a Muxer that has written other data before) = %x (n=%d err=%v)\noriginal %x", i, out, wn, err, enc)
+			}
+			if i%3 == 1 {
+				pes()
 			}
 		}
 		h := obs.NewHasher()
